@@ -4,6 +4,7 @@
 -/
 import Stevia.Proofs.TreeState
 import Stevia.Proofs.ArraySetState
+import Stevia.Proofs.ExecInv
 
 namespace Stevia.C06
 open Stevia
@@ -22,6 +23,11 @@ theorem height_bound (c : TreeCfg) (s : Tree α β) (h : Tree.Reach c s) :
   have hi := Tree.reach_inv h
   rw [hi.size_eq, ← T.ht_eq_height hi.bal]
   exact T.minNodes_le_size hi.bal
+
+/-- Closed form: `2^(height/2) ≤ entries + 1`, i.e. `height ≤ 2·log2(entries + 1)` (the exact bound is
+    `minNodes`, ≈ 1.44·log2(n+2)). -/
+theorem height_closed_form (c : TreeCfg) (s : Tree α β) (h : Tree.Reach c s) :
+    2 ^ (s.root.height / 2) ≤ s.size + 1 := Tree.height_closed_form c s h
 
 /-- A lookup, insertion or removal compares the sought key only with the keys of one
     root-to-leaf path (`T.path` follows exactly one child per node), whose length is
